@@ -1,3 +1,7 @@
+/-
+C06 — NAF layer, part 3: termination within the model's fuel `bitSize d + w + 2` (measure `mu`),
+`wwNAF_spec`, `wwNAF_zero`, `decode_digits`.
+-/
 import Bee2V.C06.LemmasNafInv
 namespace Bee2V.C06.MulL
 open Bee2V.C06
@@ -127,5 +131,35 @@ theorem wwNAF_spec {d w : Nat} (hw : 2 ≤ w) (hd : 0 < d) :
   exact ⟨hv.symm, hinv.top hz hb⟩
 
 theorem wwNAF_zero (w : Nat) : wwNAF 0 w = (0, 0) := by simp [wwNAF]
+
+/-- every digit is 0 or odd of magnitude `< 2^(w-1)` -/
+theorem decode_digits {w : Nat} (hw : 2 ≤ w) (naf : Nat) :
+    ∀ (k i : Nat) (e : Int), e ∈ decode w naf k i →
+      e = 0 ∨ (e % 2 = 1 ∧ -(2 ^ (w - 1) : Int) < e ∧ e < 2 ^ (w - 1)) := by
+  obtain ⟨h1, h2, h3⟩ := two_pow_split hw
+  obtain ⟨H, hH⟩ : ∃ H, H = 2 ^ (w - 1) := ⟨_, rfl⟩
+  have hHI : (2 ^ (w - 1) : Int) = (H : Int) := by rw [hH]; push_cast; rfl
+  rw [hHI]
+  rw [← hH] at h1 h2
+  intro k
+  induction k with
+  | zero => intro i e he; simp [decode] at he
+  | succ k ih =>
+    intro i e he
+    unfold decode at he
+    simp only at he
+    split at he
+    · rename_i hodd
+      rcases List.mem_cons.1 he with rfl | he
+      · right
+        have hlt : getBits naf i w < 2 ^ w := Nat.mod_lt _ (by positivity)
+        generalize getBits naf i w = c at hodd hlt
+        by_cases hc : c < H
+        · rw [sval_pos hH hc]; omega
+        · rw [sval_neg hH (by omega)]; omega
+      · exact ih _ _ he
+    · rcases List.mem_cons.1 he with rfl | he
+      · left; rfl
+      · exact ih _ _ he
 
 end Bee2V.C06.MulL
